@@ -182,6 +182,33 @@ Definition fbr_chunks (cs : list bytes) : option (list bytes) :=
       end
   end.
 
+(* ---------- hijackConnHandler / hijackConn.Read: what the user of the hijacked connection reads ----------
+   hijackConn.Read reads from the io.Reader chosen by the loop (src): the conn itself, the loop's
+   bufio.Reader br, or br over ctx.fbr (ReduceMemoryUsage: firstByteReader{c, ch, byteRead}).
+   Inside the hijack handler every source yields hbuf followed by the later reads.
+   After the handler returned, hijackConnHandler releases the reader and closes the conn unless
+   KeepHijackedConns, and in every case calls s.releaseCtx(ctx) -> ctx.reset() -> ctx.fbr.reset()
+   (c = nil, byteRead = false).  With KeepHijackedConns the connection lives on; a reader that goes
+   through ctx.fbr then still delivers what br has buffered and after that runs into the reset
+   firstByteReader: a zero byte is injected and the nil conn is dereferenced (panic) — or, once the
+   pooled ctx serves another connection, that connection's bytes are read. *)
+Inductive late_read :=
+| LateAll (bs : bytes)          (* the rest of the stream, then what the client does next *)
+| LatePanic (bs : bytes)        (* these bytes, then a nil-pointer panic in firstByteReader.Read *)
+| LateClosed                    (* the connection was closed by hijackConnHandler *)
+| LateUnmodelled.               (* HjBrFbr and the handler read beyond br's buffer: depends on the fill sizes *)
+
+(* bytes read inside the handler when it reads k bytes (k <= what is there) *)
+Definition hijack_in (hb : bytes) (hcs : list bytes) (k : nat) : bytes := firstn k (hb ++ concat hcs).
+
+(* reads after the handler returned, having read k bytes inside *)
+Definition hijack_late (keep : bool) (src : hj_src) (hb : bytes) (hcs : list bytes) (k : nat) : late_read :=
+  if negb keep then LateClosed
+  else match src with
+       | HjBrFbr => if k <=? length hb then LatePanic (skipn k hb) else LateUnmodelled
+       | _ => LateAll (skipn k (hb ++ concat hcs))
+       end.
+
 Section Loop.
 Variable F : framer.
 Variable cfg : scfg.
